@@ -140,6 +140,10 @@ def cut_case(ctx, msgs, cut, seg, seed):
         for c in cuts + [len(data)]:
             if c > prev:
                 b.sendall(data[prev:c])
+                if seg != 'whole' and rng.random() < 0.25:
+                    # the next segment is late: seconds (or an hour) pass on every clock of the process before it is read
+                    from .. import clock
+                    clock.advance(rng.choice((1.5, 40.0, 3600.0)))
             prev = c
             if seg != 'whole' and rng.random() < 0.7:
                 drain_polls(port, got)
